@@ -73,6 +73,20 @@ Theorem c20_symmetry :
 Proof. exact symmetry_all. Qed.
 Print Assumptions c20_symmetry.
 
+(* --- product quantiser (shard/vectorstore/product.go): the distance between two quantised
+       points, sum over the sub-vectors of term(i, code_a i, code_b i), is symmetric whenever the
+       term is -- in particular sum_i distFn(centroid_i(a), centroid_i(b)) for both metrics
+       the quantiser uses (cosine is mapped to euclidean by newProductQuantizer) --- *)
+Theorem c20_pq_sum_symmetric : forall f : nat -> nat -> nat -> Z, (forall i a b, f i a b = f i b a) ->
+  forall i ca cb, pq_sum f i ca cb = pq_sum f i cb ca.
+Proof. exact pq_sum_sym. Qed.
+Print Assumptions c20_pq_sum_symmetric.
+
+Theorem c20_pq_point_dist_symmetric : forall metric sl k cents ca cb,
+  pq_point_dist metric sl k cents ca cb = pq_point_dist metric sl k cents cb ca.
+Proof. exact pq_point_dist_sym. Qed.
+Print Assumptions c20_pq_point_dist_symmetric.
+
 (* --- the hypotheses are satisfiable by non-trivial data: lengths 33 (one block + 1)
        and 70 (two blocks + 6), mixed signs --- *)
 Definition ex_x (n : nat) : list Z := map (fun i => Z.of_nat i mod 7 - 3) (seq 1 n).
@@ -89,4 +103,13 @@ Example c20_ex_bits :
   let th := repeat 1 70 in let v1 := ex_x 70 in let v2 := ex_y 70 in
   pack th v1 = [3485998880071096368; 24]%N
   /\ hamming (pack th v1) (pack th v2) = 26%N /\ jaccard (pack th v1) (pack th v2) = (4, 30)%N.
+Proof. vm_compute. repeat split; reflexivity. Qed.
+(* product quantiser, 2 sub-vectors of length 2, 2 centroids each (plain integers as units): under the dot
+   metric the distance of a point to a point with the same codes is -|c|^2, not 0 *)
+Example c20_ex_pq :
+  let cents := [1; 0; 0; 2;   -1; 1; 3; 0] in
+  pq_point_dist 1 2 2 cents [0; 1]%nat [1; 1]%nat = -9 /\ pq_point_dist 1 2 2 cents [1; 1]%nat [0; 1]%nat = -9
+  /\ pq_point_dist 1 2 2 cents [1; 0]%nat [1; 0]%nat = -6 /\ pq_point_dist 0 2 2 cents [1; 0]%nat [1; 0]%nat = 0
+  /\ pq_point_dist 0 2 2 cents [0; 1]%nat [1; 0]%nat = 22
+  /\ pq_query_dist 1 2 2 cents [0; 2; 3; 0] [1; 1]%nat = -13.
 Proof. vm_compute. repeat split; reflexivity. Qed.
